@@ -457,17 +457,17 @@ theorem own_visitStmt : ∀ (s : Stmt) (σ : List Scope) (b : B) (a : Acc) (inLo
     let r1 := visitStmts σ' body b0 a
     have hact1 : r1.1.activeStmts = b.activeStmts ++ [i] := by rw [t1.active]; exact hact0
     -- else block
-    have t2 := own_optSection (orelse.head?.map Stmt.id) (fun k b => (b.enterCondSection k).newCondBranch k)
+    have t2 := own_optSection (elseRep i orelse) (fun k b => (b.enterCondSection k).newCondBranch k)
       (fun k b => (b.newCondBranch k).exitCondSection k) (fun _ => visitStmts σ' orelse) r1 (ownSpecL (b.activeStmts ++ [i]) orelse)
       (fun k b' => by simpa using OwnStep.trans (own_enterCondSection b' k) (own_newCondBranch _ k))
       (fun k b' => by simpa using OwnStep.trans (own_newCondBranch b' k) (own_exitCondSection _ k))
       (fun h => by cases orelse with
         | nil => rfl
-        | cons x xs => simp at h)
+        | cons x xs => simp [elseRep] at h)
       (fun k b' a' _ hb' => by
         have := own_visitStmts orelse σ' b' a' inLoop hso hp' ndo (by rw [hb', hact1]; exact dsub _ mo)
         rw [hb', hact1] at this; exact this)
-    let r2 := optSection (orelse.head?.map Stmt.id) (fun k b => (b.enterCondSection k).newCondBranch k)
+    let r2 := optSection (elseRep i orelse) (fun k b => (b.enterCondSection k).newCondBranch k)
       (fun k b => (b.newCondBranch k).exitCondSection k) (fun _ => visitStmts σ' orelse) r1
     have h2 := OwnStep.trans t1 t2
     have hact2 : r2.1.activeStmts = b.activeStmts ++ [i] := by rw [h2.active]; exact hact0
